@@ -11,7 +11,7 @@ def frame(body):
 
 def body(msg, mid, in_response_to=0, ts=1_600_000_000, context=7):
     from skepticoin.networking.messages import MessageHeader
-    return MessageHeader(ts, mid, in_response_to, context).serialize() + msg.serialize()
+    return MessageHeader(ts & 0xffffffff, mid, in_response_to, context).serialize() + msg.serialize()
 
 
 def hello(nonce=1, my_port=2412, your_port=0, agent=b"verif"):
